@@ -423,6 +423,11 @@ pub fn generate(rng: &mut Rng, prop: &str, corpus: &[String]) -> Vec<BcCheck> {
         gen::Family::Pressure,
         gen::Family::Pressure,
         gen::Family::Roamer,
+        gen::Family::IoPressure,
+        gen::Family::IoPressure,
+        gen::Family::Idioms,
+        gen::Family::Brackets,
+        gen::Family::Explosive,
     ]);
     let program = gen::program(rng, fam, width, corpus, false);
     let mut peers: Vec<Peer> = (0..3).map(|_| Peer::generate(rng)).collect();
